@@ -3,6 +3,7 @@
 // reach, as terms of the hook language of coq/Model/HookLang.v:
 //
 //	Seq l | ForEach items body | Wrapped body | Call name kind | Risk kind text | Unrecognised what
+//	| OnErr result call
 //
 //   - Wrapped body      = utils.ApplyFuncIfNoError(ctx, func(ctx) error { body })
 //   - Call name Reads   = a repository function that (transitively) writes nothing
@@ -12,6 +13,8 @@
 //   - Risk kind text    = a construct that can panic by itself and stands OUTSIDE every wrap:
 //     slice expression, index expression on a slice/array/string, integer division/modulo,
 //     explicit panic()
+//   - OnErr r c         = (inside a closure only) the call c yields an error and the closure treats it as r =
+//     ReturnsCallErr | SwallowsErr | UnrecognisedErr what   (emit_hooks_errflow.go)
 //   - Unrecognised      = go / select / goto / labelled statement / function literal that is not
 //     the argument of ApplyFuncIfNoError / ApplyFuncIfNoError with a non-literal argument:
 //     the Coq table theorems fail on such a row.
@@ -46,6 +49,7 @@ type hooksWalker struct {
 	names []string
 	queue []*hooksFn
 	done  map[*types.Func]bool
+	errs  *hooksErrAnalysis // error flow of the ApplyFuncIfNoError closure being walked (nil outside closures)
 }
 
 func hooksText(fset *token.FileSet, n ast.Node) string {
@@ -59,7 +63,17 @@ func hooksText(fset *token.FileSet, n ast.Node) string {
 }
 
 func (w *hooksWalker) walkFn(fn *hooksFn) *hooksNode {
+	w.errs = nil
 	return w.block(fn, fn.decl.Body.List, false)
+}
+
+// inside a closure: a Call node whose call expression yields an error carries how the closure treats it
+func (w *hooksWalker) onErr(fn *hooksFn, e *ast.CallExpr, n *hooksNode) *hooksNode {
+	if w.errs == nil || !hooksHasErrResult(fn.pkg.TypesInfo, e) {
+		return n
+	}
+	h := w.errs.handling(e)
+	return &hooksNode{kind: "OnErr", ckind: h.kind, text: h.what, kids: []*hooksNode{n}}
 }
 
 func (w *hooksWalker) block(fn *hooksFn, list []ast.Stmt, wrapped bool) *hooksNode {
@@ -292,7 +306,11 @@ func (w *hooksWalker) call(fn *hooksFn, e *ast.CallExpr, wrapped bool) []*hooksN
 		if len(e.Args) == 2 {
 			out = append(out, w.expr(fn, e.Args[0], wrapped)...)
 			if lit, ok := e.Args[1].(*ast.FuncLit); ok {
-				out = append(out, &hooksNode{kind: "Wrapped", kids: []*hooksNode{w.block(fn, lit.Body.List, true)}})
+				prev := w.errs
+				w.errs = hooksAnalyseClosure(fn, lit)
+				body := w.block(fn, lit.Body.List, true)
+				w.errs = prev
+				out = append(out, &hooksNode{kind: "Wrapped", kids: []*hooksNode{body}})
 				return out
 			}
 		}
@@ -347,7 +365,7 @@ func (w *hooksWalker) call(fn *hooksFn, e *ast.CallExpr, wrapped bool) []*hooksN
 			if sel, ok := ast.Unparen(e.Fun).(*ast.SelectorExpr); ok {
 				name = hooksText(fn.pkg.Fset, sel.X) + "." + f.Name()
 			}
-			out = append(out, &hooksNode{kind: "Call", text: name, ckind: "Writes"})
+			out = append(out, w.onErr(fn, e, &hooksNode{kind: "Call", text: name, ckind: "Writes"}))
 		}
 		return out
 	}
@@ -367,7 +385,7 @@ func (w *hooksWalker) call(fn *hooksFn, e *ast.CallExpr, wrapped bool) []*hooksN
 				w.queue = append(w.queue, t)
 			}
 		}
-		out = append(out, &hooksNode{kind: "Call", text: hooksName(r), ckind: kind})
+		out = append(out, w.onErr(fn, e, &hooksNode{kind: "Call", text: hooksName(r), ckind: kind}))
 	}
 	return out
 }
@@ -389,6 +407,12 @@ func (n *hooksNode) coq(ind string) string {
 		return ind + "Wrapped (\n" + n.kids[0].coq(ind+"  ") + ")"
 	case "Call":
 		return ind + "Call " + coqString(n.text) + " " + n.ckind
+	case "OnErr":
+		r := n.ckind
+		if r == "UnrecognisedErr" {
+			r = "(UnrecognisedErr " + coqString(n.text) + ")"
+		}
+		return ind + "OnErr " + r + " (" + strings.TrimSpace(n.kids[0].coq(ind)) + ")"
 	case "Risk":
 		return ind + "Risk " + coqString(n.ckind) + " " + coqString(n.text)
 	default:
@@ -461,7 +485,9 @@ func init() {
 		}
 		b.WriteString("].\n\n")
 		b.WriteString("(* AppModule.BeginBlock / EndBlock -> the hook function it calls (absent = not wired) *)\n")
-		b.WriteString("Definition hook_wiring : list (string * string) := [\n  " + strings.Join(wiring, ";\n  ") + "\n].\n")
+		b.WriteString("Definition hook_wiring : list (string * string) := [\n  " + strings.Join(wiring, ";\n  ") + "\n].\n\n")
+		b.WriteString("(* types/utils.go ApplyFuncIfNoError, statement by statement (emit_hooks_errflow.go) *)\n")
+		b.WriteString("Definition apply_func_shape : list apply_stmt :=\n  " + hooksApplyShape(g) + ".\n")
 		return b.String(), nil
 	})
 }
